@@ -113,6 +113,15 @@ impl<V> BTreeMap<u64, V> {
     pub fn is_empty(&self) -> (r: bool) ensures r == (btree_view(*self).dom() =~= vstd::set::Set::<u64>::empty()) { unimplemented!() }
     #[verifier::external_body]
     pub fn clear(&mut self) ensures btree_view(*final(self)) =~= vstd::map::Map::<u64, V>::empty() { unimplemented!() }
+    /// std `retain` (the closure of the real signature takes `&mut V`; it is modelled read-only): keeps exactly the entries the closure accepts
+    #[verifier::external_body]
+    pub fn retain<F: Fn(&u64, &V) -> bool>(&mut self, f: F)
+        requires forall|k: u64| btree_view(*old(self)).contains_key(k) ==> f.requires((&k, &btree_view(*old(self))[k]))
+        ensures forall|k: u64| #![trigger btree_view(*final(self)).contains_key(k)]
+                    (btree_view(*final(self)).contains_key(k) ==> btree_view(*old(self)).contains_key(k) && btree_view(*final(self))[k] == btree_view(*old(self))[k]
+                        && f.ensures((&k, &btree_view(*old(self))[k]), true))
+                    && (btree_view(*old(self)).contains_key(k) && f.ensures((&k, &btree_view(*old(self))[k]), false) ==> !btree_view(*final(self)).contains_key(k))
+    { unimplemented!() }
     /// `range(..=hi)` / `range(..hi)`: the entries below the bound (only the back end of the iterator is modelled)
     #[verifier::external_body]
     pub fn range<R: U64UpperBound>(&self, r: R) -> (it: BTreeRangeTo<'_, V>) ensures it.m == self, it.hi == r.upper() { unimplemented!() }
